@@ -775,6 +775,9 @@ partial def loop (h : IO.FS.Stream) (out : IO.FS.Stream) : IO Unit := do
   if line.isEmpty then return ()
   let l := (line.dropEndWhile (fun c => c == '\n' || c == '\r')).toString
   out.putStrLn (handle l)
+  -- one answer per request, visible at once: the caller cuts a run that takes too long at the
+  -- request being worked on
+  out.flush
   loop h out
 
 end Drv
